@@ -29,8 +29,8 @@ EXTENDS CoalescerProps, Integers, FiniteSets, Sequences, TraceKit
 
 CONSTANT Want
 
-VARIABLES l, fails, nsig, ndemand, done
-tvars == <<l, fails, nsig, ndemand, done>>
+VARIABLES l, fails, nsig, ndemand, npost, done
+tvars == <<l, fails, nsig, ndemand, npost, done>>
 
 Inf == 2000000000
 Eps == 1000              \* stamp truncation and timer granularity, microseconds
@@ -67,18 +67,29 @@ Ctx(r) ==
              IF cand = {} THEN FALSE ELSE Greedy(j + 1, SetMin(cand), strict)
       \* the longest strobe-free time that can have preceded the j-th signal
       BestQuiet(j) == SetMax({MinOf(Sig(j).t1, Latest(i)) - S[i].t0 : i \in 1..NS} \cup {0})
-      \* a failed receive attempt k: for how long has the last strobe been owed its signal
+      \* a failed receive attempt k: for how long had the last strobe been owed its signal, up to the
+      \* attempt's end or - if that came first - the beginning of Terminate (after which no timer need
+      \* fire any more, but what was emitted before must still be in the buffer: nobody but the consumer
+      \* takes signals out)
       OwedFor(k) ==
-        LET before == {i \in 1..NS : S[i].t0 <= R[k].t1} IN
-        IF before = {} \/ (\E i \in before : ~S[i].ret) \/ TermStart <= R[k].t1 THEN 0
+        LET cut == MinOf(R[k].t1, TermStart)
+            before == {i \in 1..NS : S[i].t0 <= cut} IN
+        IF before = {} \/ (\E i \in before : ~S[i].ret) THEN 0
         ELSE LET last == CHOOSE i \in before : \A x \in before : S[x].t0 <= S[i].t0 IN
              IF \E j \in SigIdx : R[j].t1 >= S[last].t0 /\ R[j].t0 <= R[k].t1 THEN 0
-             ELSE IF R[k].t1 > S[last].t1 THEN R[k].t1 - S[last].t1 ELSE 0
+             ELSE IF cut > S[last].t1 THEN cut - S[last].t1 ELSE 0
+      Failed == {k \in DOMAIN R : ~R[k].got}
   IN [nsig |-> NSig,
       coalesces |-> /\ \A j \in 1..NSig : C31_Coalesces(BestQuiet(j), r.w, Eps)
                     /\ Greedy(1, 0, FALSE),
       buffered |-> IF Greedy(1, 0, FALSE) /\ ~Greedy(1, 0, TRUE) THEN 2 ELSE 1,
-      noloss |-> \A k \in DOMAIN R : R[k].got \/ C31_NoLoss(OwedFor(k), r.w + 1, Slack),
+      \* attempts that ended before Terminate began: the timer must have fired
+      noloss |-> \A k \in {x \in Failed : R[x].t1 < TermStart} : C31_NoLoss(OwedFor(k), r.w + 1, Slack),
+      \* attempts that ended after Terminate began: a signal that had to be emitted before (quiet period >=
+      \* window + slack before Terminate, nothing consumed since the strobe) must have survived termination
+      keeps |-> \A k \in {x \in Failed : R[x].t1 >= TermStart} :
+                  C31_TerminateKeepsBuffered(IF C31_NoLoss(OwedFor(k), r.w + 1, Slack) THEN 0 ELSE 1, 0),
+      postterm |-> Cardinality({k \in DOMAIN R : R[k].got /\ R[k].t0 >= TermEnd}),
       demands |-> Cardinality({k \in DOMAIN R : R[k].got /\ R[k].t1 - R[k].t0 > r.w \div 2})]
 
 \* Strobe (a rendezvous with a loop that never blocks for long) and Terminate come back
@@ -91,6 +102,7 @@ CaseFails(i, r, c) ==
     \o Chk(Want, i, "C31_Coalesces", c.coalesces)
     \o Chk(Want, i, "C31_AtMostOne", C31_AtMostOne(c.buffered))
     \o Chk(Want, i, "C31_NoLoss", c.noloss)
+    \o Chk(Want, i, "C31_TerminateKeepsBuffered", c.keeps)
 
 WellFormed(r) ==
   /\ Has(r, "ev") /\ r.ev = "CoalescerCase" /\ Has(r, "strobes") /\ Has(r, "recvs") /\ Has(r, "term") /\ Has(r, "w")
@@ -99,7 +111,7 @@ WellFormed(r) ==
   /\ \A k \in DOMAIN r.recvs : k > 1 => r.recvs[k - 1].t1 <= r.recvs[k].t0
   /\ \A k \in DOMAIN r.strobes : k > 1 => r.strobes[k - 1].t0 <= r.strobes[k].t0
 
-TInit == l = 1 /\ fails = <<>> /\ nsig = 0 /\ ndemand = 0 /\ done = FALSE
+TInit == l = 1 /\ fails = <<>> /\ nsig = 0 /\ ndemand = 0 /\ npost = 0 /\ done = FALSE
 Step == /\ l <= NRec
         /\ LET r == Trace[l] IN
            IF WellFormed(r)
@@ -107,11 +119,13 @@ Step == /\ l <= NRec
                 /\ fails' = Cap(fails \o CaseFails(l, r, c))
                 /\ nsig' = nsig + c.nsig
                 /\ ndemand' = ndemand + c.demands
+                /\ npost' = npost + c.postterm
            ELSE /\ fails' = Cap(fails \o <<Fail(l, "C31_TraceAccepted")>>)
-                /\ UNCHANGED <<nsig, ndemand>>
+                /\ UNCHANGED <<nsig, ndemand, npost>>
         /\ l' = l + 1 /\ UNCHANGED done
 Finish == /\ l = NRec + 1 /\ ~done
-          /\ WriteResult(l - 1, fails, [stat_signals |-> nsig, stat_awaited_signals |-> ndemand])
-          /\ done' = TRUE /\ UNCHANGED <<l, fails, nsig, ndemand>>
+          /\ WriteResult(l - 1, fails, [stat_signals |-> nsig, stat_awaited_signals |-> ndemand,
+                                        stat_signals_received_after_terminate |-> npost])
+          /\ done' = TRUE /\ UNCHANGED <<l, fails, nsig, ndemand, npost>>
 TSpec == TInit /\ [][Step \/ Finish]_tvars
 ====
